@@ -320,6 +320,10 @@ ColsOf(f) == <<f.seqid, f.source, f.ftype, IF f.start = NoCoord THEN <<DOT>> ELS
                f.score, f.strand, f.frame>>
 LineText(f, d) == ToLine([cols |-> ColsOf(f), attrs |-> f.attrs, extra |-> f.extra, d |-> d], TRUE, FALSE)
 
+\* what judges and generators print of a database / of the result of a call
+Proj(db) == [feats |-> db.feats, rels |-> db.rels, ctr |-> db.ctrP, dups |-> db.dups, dirs |-> db.dirs, nmeta |-> db.nmeta]
+Snap(st, db, ctr) == [st |-> st, db |-> Proj(db), ctrL |-> ctr]
+
 \* canonical projection used by judges: attribute keys and values as sorted sequences
 CanonAttrs(a) == LET ks == SortText(AttrKeys(a)) IN [i \in 1..Len(ks) |-> <<ks[i], SortText(AttrGet(a, ks[i]))>>]
 =============================================================================
